@@ -77,9 +77,14 @@ func (x *Ex) genFuncsMore(body *LeanFile) {
 	x.embedJob(body, "TwitterExtractor", "extractRendered", "twitterRendered", "twitterRendered")
 	x.embedJob(body, "TwitterExtractor", "extractNonRendered", "twitterNonRendered", "twitterNonRendered")
 	x.genMarkup(body)
+	x.genApply(body)
 }
 
 func (x *Ex) genInventory() string {
 	f := newLeanFile("Inventory", "Inventories: source sites used as proof premises.")
+	x.inventory(f, "loggerSites", "every use of the logger in library code, with its syntactic role", x.loggerSites(), "C13")
+	x.inventory(f, "mapRanges", "every range over a map-typed expression in library code", x.mapRanges(), "C11")
+	x.inventory(f, "packageWrites", "every write rooted at a package-level variable in library code", x.packageWrites(), "C11", "C12")
+	x.inventory(f, "packageVars", "package-level variables of library code", x.packageVars(), "C12")
 	return f.finish()
 }
